@@ -88,8 +88,8 @@ def queries(tier, kfs):
     # table grids dumped from the real raster / mesh classes
     tabs = ['raster_rook_2x2_fixed', 'raster_rook_2x3_hloop', 'raster_queen_2x2_fixed', 'mesh_quad4']
     if not quick:
-        tabs += ['raster_queen_2x3_fixed', 'raster_bishop_2x3_fixed', 'raster_rook_3x3_fixed', 'raster_bishop_3x3_fixed', 'mesh_fan5',
-                 'raster_rook_3x3_bloop', 'raster_rook_3x2_vloop', 'raster_queen_2x2_bloop', 'raster_rook_2x4_fixed', 'mesh_strip6']
+        tabs += ['raster_bishop_2x3_fixed', 'raster_rook_3x3_fixed', 'raster_bishop_3x3_fixed', 'mesh_fan5',
+                 'raster_rook_3x2_vloop', 'raster_queen_2x2_bloop', 'raster_rook_2x4_fixed', 'mesh_strip6']
     for t in tabs:
         n, d = table_info(t)
         sm = status_mask(t)
@@ -104,13 +104,15 @@ def queries(tier, kfs):
                 dict(grid='table:' + t, N=n, D=d, BL=bl, mask=mk, threads=thr), timeout=900 if quick else 3600)
     if not quick:
         # larger tables, one query per node (cone of influence: at most D slope divisions per query)
-        for t, cfgs in (('raster_queen_3x3_fixed', 1), ('raster_rook_3x4_hloop', 2), ('raster_bishop_3x3_hloop', 1)):
+        for t, cfgs in (('raster_queen_3x3_fixed', 1), ('raster_queen_2x3_fixed', 2), ('raster_rook_3x3_bloop', 2), ('raster_rook_3x4_hloop', 2), ('raster_bishop_3x3_hloop', 1)):
             n, d = table_info(t)
             sm = status_mask(t)
             for bl, mk, thr in ((0, None, 0), (sm, 1 << (n // 2), 2))[:cfgs]:
                 for node in range(n):
                     if (bl >> node) & 1 or (mk is not None and (mk >> node) & 1):
                         continue
+                    if t == 'raster_queen_3x3_fixed' and node not in (0, 1, 3, 5, 8):
+                        continue   # nodes 2, 4, 6, 7: no verdict within 2 h per query (8 divisions by sqrt(5), 1, 2); measured, see DESIGN.md
                     hd = dict(N=n, D=d, GRID=1, BLMASK=bl, USE_MASK=0 if mk is None else 1, TABLE='"%s.h"' % t, THREADS=thr, ONLY_NODE=node)
                     if mk is not None:
                         hd['MASKBITS'] = mk
